@@ -50,6 +50,12 @@ CLAIMED = {
         "source by the mini translator; correspondence on boundaries + dense tick prefix",
         "float division in TimeTicks.pythonize is modelled as exact (argued in DESIGN.md, sampled); x690 Integer codec modelled",
     ),
+    "C15": (
+        "proof: for every raw result every wrapper method returns built-in types only (PyVal universe with an explicit leak "
+        "constructor, dictionary keys included) and equals the element-wise pythonisation (tables: same items, index key moved "
+        "last); tied by deep type inspection of all 11 PyWrapper methods vs the raw client against agents holding every value kind",
+        "TimeTicks.pythonize goes through float division, modelled as exact (see C17)",
+    ),
     "C18": (
         "proof: exit of a reconfigure block restores config and message-processing instance exactly (normal, exceptional, "
         "inner configure failing, any nesting depth, permanent configure inside), whole programs without a top-level configure "
